@@ -14,11 +14,11 @@ META = {
     "functions": ["CapturedPath.captured_path/_compute_captured_path/_push_item_on_se_path/_push_first_edge_on_se_path/_push_nonfirst_edge_on_se_path/_push_segment_on_se_path/_find_edge_from_path_to_segment/_check_s_is_as_expected",
                   "captured_segments", "captured_edges", "OrientedLine.__eq__/inverted"],
     "bounds": "GFA2 graph s1..s4 with 5 dovetail edges (a parallel pair s1-s2 for ambiguity, a closing edge s4-s1), an inner path oin = s2+ s3- ; O group of 1..3 items, each ANY of 18 pool items (every segment and edge in both orientations, the inner path forwards and reversed, an undefined id); quick: 3-item lists over a 7-item sub-pool; compared with a second implementation: same walk, or an error of the documented class (NotFoundError non-contiguous, NotUniqueError ambiguous, error for inconsistent/unresolved)",
-    "timeout": {"quick": 400, "thorough": 1200}, "parts": {"quick": 16, "thorough": 16}},
+    "timeout": {"quick": 400, "thorough": 900}, "parts": {"quick": 16, "thorough": 16}},
   "h_induced_set": {"kind": "G",
     "functions": ["InducedSet.induced_set/induced_segments_set/induced_edges_set/_compute_induced_edges_set", "CapturedPath.captured_segments", "edge Other.other"],
     "bounds": "same graph plus an internal edge, an inner set and a gap; U group of 1..3 items, each ANY of 15 pool items (segments, edges incl. a loop and a hairpin, inner path, inner set, undefined id, gap): induced segments (first-occurrence order), induced edges, induced set equal the oracle; unresolved items refused",
-    "timeout": {"quick": 400, "thorough": 1200}, "parts": {"quick": 16, "thorough": 16}},
+    "timeout": {"quick": 400, "thorough": 900}, "parts": {"quick": 16, "thorough": 16}},
   "h_multiline": {"kind": "G",
     "functions": ["SameID._process_not_unique/_import_tags_of_previous_group_definition/_check_tags_of_previous_group_definition", "group References._initialize_references/_line_for_ref_symbol", "VirtualToReal._substitute_virtual_line"],
     "bounds": "U and O groups defined by 2..3 lines with one identifier: item lists from a pool of 6, tags disjoint / equal / contradicting, every arrival order of the group lines among a line that defines one of their items and a group that lists the multi-line group (4! orders): items = concatenation in arrival order, tags = union, contradicting tags refused without a trace",
